@@ -301,6 +301,8 @@ def gen_cpl(rng, kind='cpl', n=None):
             'A': {'m': p, 'n': n, 'v': A, 'sparse': bool(rng.random() < 0.3)}, 'b': b}
     if kind == 'cpl':
         inst['c'] = rvec(rng, n)
+    if rng.random() < 0.4:
+        inst['refusal_form'] = 'tuple'
     if rng.random() < 0.3:
         inst['sparse_F'] = True
         if rng.random() < 0.7:
@@ -330,6 +332,7 @@ class ConvexF:
         self.keep_trace = True
         self.sparse_out = bool(inst.get('sparse_F'))
         self.hook = None         # optional callable(call ordinal): lets the simulator make the user's F re-enter the library
+        self.refusal_form = inst.get('refusal_form', 'none')     # documented: F(x) returns None or (None, None)
         # the start point is an input of the caller: F() hands out the same stored matrix every time,
         # so a solver that writes into it is observable (C09: "never modifies ... start points")
         self.x0m = matrix(self.x0, (self.n, 1), 'd')
@@ -358,6 +361,8 @@ class ConvexF:
             self.refused += 1
             if z is not None:
                 self.refused_hess += 1
+            if self.refusal_form == 'tuple' and z is None:
+                return (None, None)
             return None
         n = self.n
         vals, grads = [], []
@@ -588,6 +593,36 @@ def make_infeasible(inst):
     out.pop('dualstart', None)
     out.pop('initvals', None)
     out['infeasible'] = True
+    return out
+
+
+def make_unbounded(inst, rng):
+    """a new variable t whose column of G is minus an interior point of the cone and whose cost is -1:
+    increasing t stays feasible and decreases the objective without bound (dual infeasible problem)"""
+    n = inst['n']
+    cd = inst['G']['m']
+    p = inst['A']['m']
+    e = interior(rng, inst['dims'])
+    out = dict(inst)
+    out['G'] = dict(inst['G'], n=n + 1, v=list(inst['G']['v']) + [-v for v in e])
+    out['A'] = dict(inst['A'], n=n + 1, v=list(inst['A']['v']) + [0.0] * p)
+    out['c'] = list(inst['c']) + [-1.0]
+    out['n'] = n + 1
+    out.pop('primalstart', None)
+    out.pop('dualstart', None)
+    out['unbounded'] = True
+    return out
+
+
+def junk_upper_triangles(rng, inst, vec):
+    """overwrite the strictly upper triangles of the 's' blocks of a flat cone vector with junk: the
+    solvers are documented to read the lower triangles only (and must not write either)"""
+    out = list(vec)
+    for kind, off, m in CR.blocks(inst['dims']):
+        if kind == 's':
+            for j in range(m):
+                for i in range(j):
+                    out[off + j * m + i] = round(rng.uniform(-9, 9), 3)
     return out
 
 
